@@ -48,6 +48,19 @@ func hostileSuite() []modelSpec {
 	add("emit-context: block comment", "predicate containing a string with */", func(m *model) *Obj {
 		return m.seq(m.predicate("__pred0() && \"*/\" != \"\""), m.opaqueChild(true, false))
 	})
+	// user code is text of the grammar's author: format verbs, comment ends and escapes in it are its own business
+	add("emit-context: statement", "action with format verbs in a string", func(m *model) *Obj {
+		return m.seq(m.char("a"), m.action("__act0(\"100% sure: %d %s %%\")"), m.opaqueChild(true, false))
+	})
+	add("emit-context: statement", "predicate with a format verb", func(m *model) *Obj {
+		return m.seq(m.predicate("__pred0(\"%v\", '%')"), m.opaqueChild(true, false))
+	})
+	add("emit-context: statement", "state change with a format verb and a backslash", func(m *model) *Obj {
+		return m.seq(m.state("__st0(\"%q\\n\")"), m.opaqueChild(true, false))
+	})
+	add("emit-context: statement", "action with a comment end inside a string", func(m *model) *Obj {
+		return m.seq(m.char("a"), m.action("__act0(\"/* c */\")"), m.opaqueChild(true, false))
+	})
 	add("runtime variables in user code", "action reading text and buffer in a grammar without captures", func(m *model) *Obj {
 		return m.seq(m.char("a"), m.action("_, _ = text, buffer"), m.opaqueChild(true, false))
 	})
